@@ -60,6 +60,20 @@ def h_ctparse_gen(rp):
         seen["b"] = dict(inspect.signature(orig).bind(*a, **k).arguments)
         return iter(())
     C._ctparse = fake
+    if rp["clause"].startswith("text-reaches-the-search-normalised"):
+        raw = "  lunch ,, (with) bob \u2013 #work\u20135pm ; "
+        try:
+            list(C.ctparse_gen(raw, datetime(2020, 2, 29, 23, 59)))
+        except Exception as e:
+            out["real_exception"] = repr(e)
+        finally:
+            C._ctparse = orig
+        got = seen.get("b", {}).get("txt")
+        want = C._preprocess_string(raw)
+        out["confirmed"] = got != want
+        if got != want:
+            out["failing_input"] = {"text": raw, "reaches_the_search_as": got, "normalised_text": want}
+        return out
     if rp["clause"].startswith("reference-time"):
         # the omitted reference time must be the local wall clock at call time: compare under a zone far from UTC
         import os
@@ -525,7 +539,14 @@ def _virtual_clock_run(text, expire_after, scorer_mode="nb", timeout=1000.0, cou
     from ctparse.scorer import Scorer
     reads, work, nseq = [], [0], [0]
 
+    import sys as _sys
+
     def fake():
+        # only the reads made by the deadline closure (a function nested in timers.timeout) are deadline checks; the
+        # stop-watch reads of timers.timeit are not
+        co = _sys._getframe(1).f_code
+        if not getattr(co, "co_qualname", co.co_name).startswith("timeout."):
+            return 0.0
         reads.append(work[0])
         if expire_after is not None and len(reads) > expire_after:
             return 1e9
